@@ -46,7 +46,7 @@ DOCUMENTED_SHORTHAND_KEYS = [
     "allocator_include", "allocator_type", "allocator_is_default_constructible", "ctor_convention",
 ]  # fmt: skip
 SCALARS = [".h", ".hpp", "x", 0, 1, 2, True, False, "little", "any", "c++14", "c++17", "c++17-pmr", "c++20", "", "true", None, None]
-TOP_KEYS = ["extension", "options", "named_types", "custom_key", "custom_map", "limit_empty_lines", "trim_trailing_whitespace", "named_values", "defaults", "stropping_suffix", "stropping_prefix"]
+TOP_KEYS = ["extension", "options", "named_types", "custom_key", "custom_map", "limit_empty_lines", "trim_trailing_whitespace", "named_values", "defaults", "stropping_suffix", "stropping_prefix", "namespace_file_stem", "support_namespace"]
 OPT_KEYS = ["target_endianness", "enable_serialization_asserts", "omit_float_serialization_support", "std", "custom_opt", "nested_opt", "cast_format", "enable_override_variable_array_capacity"]
 SUB_KEYS = ["a", "b", "boolean", "byte", "deep"]
 
@@ -165,16 +165,35 @@ def _rand_section_doc(r: Rng, allow_default: bool) -> dict:
     return doc
 
 
-def to_runtime(v: typing.Any) -> typing.Any:
+def apply_alias(doc: typing.Any, alias: typing.Optional[list]) -> typing.Any:
+    """the document with doc[alias_to] made the SAME object as doc[alias_from] (a map), when that is possible"""
+    if not alias or not isinstance(doc, dict):
+        return doc
+    _, k_from, k_to = alias
+    if k_from == k_to or not isinstance(doc.get(k_from), dict) or set(doc[k_from].keys()) == {D}:
+        return doc
+    doc = dict(doc)
+    doc[k_to] = doc[k_from]
+    return doc
+
+
+def to_runtime(v: typing.Any, memo: typing.Optional[dict] = None) -> typing.Any:
     """JSON document -> what is handed to nunavut ({"__default__": x} -> DefaultValue(x))."""
     from nunavut._utilities import DefaultValue
 
+    memo = {} if memo is None else memo  # one runtime object per document object: shared sub-objects stay shared
     if isinstance(v, dict):
+        if id(v) in memo:
+            return memo[id(v)]
         if set(v.keys()) == {D}:
-            return DefaultValue(to_runtime(v[D]))
-        return {k: to_runtime(x) for k, x in v.items()}
+            return DefaultValue(to_runtime(v[D], memo))
+        out = {}  # type: typing.Dict[str, typing.Any]
+        memo[id(v)] = out
+        for k, x in v.items():
+            out[k] = to_runtime(x, memo)
+        return out
     if isinstance(v, list):
-        return [to_runtime(x) for x in v]
+        return [to_runtime(x, memo) for x in v]
     return v
 
 
@@ -310,16 +329,27 @@ def run_case(case: dict, ctx: dict) -> dict:
                 o = {"op": "files", "b": ro.below(nb), "docs": docs}
                 if ro.chance(1, 6):
                     o["other_section"] = True
+                if ro.chance(1, 5):
+                    # one sub-object shared by two keys of a document (YAML writes it as anchor + alias)
+                    o["alias"] = [ro.below(len(docs)), ro.choice(["custom_map", "named_types", "named_values"]), ro.choice(["custom_map", "named_types", "named_values", "alias_target"])]
+                if ro.chance(1, 6):
+                    o["via"] = "set_additional_config_files"
                 ops.append(o)
             elif kind == "update":
-                ops.append({"op": "update", "b": ro.below(nb), "doc": _rand_section_doc(ro.sub("d"), ro.chance(1, 3))})
+                o = {"op": "update", "b": ro.below(nb), "doc": _rand_section_doc(ro.sub("d"), ro.chance(1, 3))}
+                if ro.chance(1, 5):
+                    o["alias"] = [0, ro.choice(["custom_map", "named_types", "named_values"]), ro.choice(["custom_map", "named_types", "named_values", "alias_target"])]
+                ops.append(o)
             elif kind == "override":
                 key = ro.choice(TOP_KEYS)
                 if key == "options":
                     val = {ro.choice(OPT_KEYS): _rand_value(ro.sub("v", j), 1, True) for j in range(ro.between(1, 3))}  # type: typing.Any
                 else:
                     val = _rand_value(ro.sub("v"), 0, True)
-                ops.append({"op": "override", "b": ro.below(nb), "key": key, "value": val})
+                o = {"op": "override", "b": ro.below(nb), "key": key, "value": val}
+                if key == "extension" and ro.chance(1, 2):
+                    o["via"] = "set_target_language_extension"
+                ops.append(o)
             elif kind == "create":
                 ops.append({"op": "create", "b": ro.below(nb)})
             else:
@@ -440,12 +470,18 @@ def run_case(case: dict, ctx: dict) -> dict:
         section = mdl.section
         if kind == "files":
             sec = section if not op.get("other_section") else "nunavut.lang.%s" % ("py" if mdl.lang != "py" else "c")
-            paths = [write_yaml(sec, d) for d in op["docs"]]
+            docs_eff = [apply_alias(d, op.get("alias")) if op.get("alias") and j == op["alias"][0] else d for j, d in enumerate(op["docs"])]
+            if any(a is not b_ for a, b_ in zip(docs_eff, op["docs"])):
+                bump("probes", "document_with_shared_sub_object")
+            paths = [write_yaml(sec, d) for d in docs_eff]
             bad = [d for d in op["docs"] if d in ("BROKEN", "MISSING")]
             try:
                 import pathlib
 
-                bld.add_config_files(*[pathlib.Path(p) for p in paths])
+                if op.get("via") == "set_additional_config_files":
+                    bld.set_additional_config_files([pathlib.Path(p) for p in paths])
+                else:
+                    bld.add_config_files(*[pathlib.Path(p) for p in paths])
                 raised = None
             except Exception as ex:  # pylint: disable=broad-except
                 raised = type(ex).__name__
@@ -461,7 +497,7 @@ def run_case(case: dict, ctx: dict) -> dict:
                 mdl.indeterminate = True
                 bump("ops", "files-rejected:" + raised)
             else:
-                for d in op["docs"]:
+                for d in docs_eff:
                     mdl.apply_doc(sec, d)
                     for k in d:
                         touched[(b, k)] = touched.get((b, k), 0) + 1
@@ -471,12 +507,15 @@ def run_case(case: dict, ctx: dict) -> dict:
             trace.append("files(b%d,%s)" % (b, ",".join("+".join("%s:%s" % (k, shape(v)) for k, v in sorted(d.items())) if isinstance(d, dict) else d for d in op["docs"])))
             bump("ops", "files")
         elif kind == "update":
-            doc_rt = to_runtime({section: op["doc"]})
+            doc_eff = apply_alias(op["doc"], op.get("alias"))
+            if doc_eff is not op["doc"]:
+                bump("probes", "document_with_shared_sub_object")
+            doc_rt = to_runtime({section: doc_eff})
             handed_in.append(("config.update", doc_rt, unwrap(copy.deepcopy(doc_rt))))
             try:
                 bld.config.update(doc_rt)
-                mdl.apply_doc(section, op["doc"])
-                for k in op["doc"]:
+                mdl.apply_doc(section, doc_eff)
+                for k in doc_eff:
                     touched[(b, k)] = touched.get((b, k), 0) + 1
             except Exception as ex:  # pylint: disable=broad-except
                 mdl.indeterminate = True
@@ -490,7 +529,10 @@ def run_case(case: dict, ctx: dict) -> dict:
             val_rt = to_runtime(op["value"])
             if isinstance(val_rt, (dict, list)):
                 handed_in.append(("override-value", val_rt, unwrap(copy.deepcopy(val_rt))))
-            bld.set_target_language_configuration_override(op["key"], val_rt)
+            if op.get("via") == "set_target_language_extension" and op["key"] == "extension":
+                bld.set_target_language_extension(val_rt)  # documented as the same call
+            else:
+                bld.set_target_language_configuration_override(op["key"], val_rt)
             if op["value"] is not None:  # (None means "not given": the CLI passes absent options this way)
                 mdl.overrides[op["key"]] = op["value"]
             touched[(b, op["key"])] = touched.get((b, op["key"]), 0) + 1
@@ -554,6 +596,20 @@ def run_case(case: dict, ctx: dict) -> dict:
                                 v = str(v) if v is not None else ""
                             if acc != v:
                                 violation("accessor-disagrees-with-merged-value", {"key": k, "accessor": repr(acc)[:200], "merged": repr(v)[:200]})
+                        # the well-known properties read the same merged values
+                        for key, prop_name in (("extension", "extension"), ("namespace_file_stem", "namespace_output_stem")):
+                            v = (want or {}).get(key)
+                            if isinstance(v, str):
+                                acc = getattr(lang_obj, prop_name)
+                                if acc != v:
+                                    violation("property-disagrees-with-merged-value", {"key": key, "property": repr(acc)[:200], "merged": repr(v)[:200]})
+                        v = (want or {}).get("support_namespace")
+                        if isinstance(v, str) and lang_obj.support_namespace != v.split("."):
+                            violation("property-disagrees-with-merged-value", {"key": "support_namespace", "property": repr(lang_obj.support_namespace)[:200], "merged": repr(v)[:200]})
+                        for key in ("named_types", "named_values"):
+                            v = (want or {}).get(key)
+                            if isinstance(v, dict) and unwrap(getattr(lang_obj, key)) != v:
+                                violation("property-disagrees-with-merged-value", {"key": key, "property": repr(unwrap(getattr(lang_obj, key)))[:200], "merged": repr(v)[:200]})
                         if isinstance((want or {}).get("options"), dict):
                             for k, v in want["options"].items():
                                 acc = unwrap(lang_obj.get_option(k))
